@@ -631,7 +631,13 @@ def load_module(src: str, tag: str = "c03"):
         spec.loader.exec_module(mod)
         return mod, None
     except Exception as e:  # front-end rejection (or a generator slip)
-        return None, "%s: %s" % (type(e).__name__, str(e)[:4000])
+        # which top-level definition was being executed: the last frame of the traceback that lies in the module file
+        at, tb = 0, e.__traceback__
+        while tb is not None:
+            if tb.tb_frame.f_code.co_filename == str(path):
+                at = tb.tb_lineno
+            tb = tb.tb_next
+        return None, "[def-at-line %d] %s: %s" % (at, type(e).__name__, str(e)[:4000])
     finally:
         sys.modules.pop(path.stem, None)
         try:
